@@ -44,6 +44,32 @@ type MemStore struct {
 	FailKind   string
 	FailKindAt int
 	kindCount  map[string]int
+
+	// Gate, when set, is called at the start of every Read/Write/Remove, outside the store's own
+	// lock, with the caller's context. A harness that owns the schedule can block a tagged
+	// goroutine here while another one runs (see RoleKey).
+	Gate func(ctx context.Context, op, key string)
+}
+
+type roleKey struct{}
+
+// RoleKey tags a context with the name of the goroutine role that uses it, for Gate.
+var RoleKey = roleKey{}
+
+func (s *MemStore) gate(ctx context.Context, op, key string) {
+	s.mu.Lock()
+	g := s.Gate
+	s.mu.Unlock()
+	if g != nil {
+		g(ctx, op, key)
+	}
+}
+
+// SetGate installs or removes the gate function.
+func (s *MemStore) SetGate(g func(ctx context.Context, op, key string)) {
+	s.mu.Lock()
+	s.Gate = g
+	s.mu.Unlock()
 }
 
 // ArmKindFault arms a single fault on the n-th operation of the given kind from now on.
@@ -101,6 +127,7 @@ func (s *MemStore) fault(op string) bool {
 
 // Read implements storage.Reader.
 func (s *MemStore) Read(ctx context.Context, key string) ([]byte, error) {
+	s.gate(ctx, "read", key)
 	s.mu.Lock()
 	defer s.mu.Unlock()
 	if s.fault("read") {
@@ -115,6 +142,7 @@ func (s *MemStore) Read(ctx context.Context, key string) ([]byte, error) {
 
 // Write implements storage.Writer.
 func (s *MemStore) Write(ctx context.Context, key string, body []byte, o *storage.Options) error {
+	s.gate(ctx, "write", key)
 	s.mu.Lock()
 	defer s.mu.Unlock()
 	if s.fault("write") {
@@ -129,6 +157,7 @@ func (s *MemStore) Write(ctx context.Context, key string, body []byte, o *storag
 
 // Remove implements storage.Remover.
 func (s *MemStore) Remove(ctx context.Context, key string) error {
+	s.gate(ctx, "remove", key)
 	s.mu.Lock()
 	defer s.mu.Unlock()
 	if s.fault("remove") {
